@@ -32,6 +32,12 @@ def pre_build():
 def points(rng: np.random.Generator, name: str, n: int) -> np.ndarray:
     while True:
         x = rng.uniform(-5, 5, n)
+        # a fifth of the points carry special coordinates (exact zeros, units, halves, small integers): every function of the
+        # family is smooth there, and formulas "simplified" by a division or a sign trick are not
+        if rng.random() < 0.2:
+            for i in range(n):
+                if rng.random() < 0.4:
+                    x[i] = float(rng.choice([0.0, 0.0, 1.0, -1.0, 0.5, -0.5, 2.0, -3.0]))
         if name == "ackley" and np.linalg.norm(x) < 0.5:
             continue
         if name == "griewank":
@@ -93,7 +99,7 @@ def search(npts: int, seed: int, rep: Report) -> List[Dict[str, Any]]:
             scale = max(1.0, float(np.max(np.abs(num))))
             err = float(np.max(np.abs(num - gx))) / scale
             worst = max(worst, err)
-            if err > 1e-6:
+            if not np.isfinite(gx).all() or not err <= 1e-6:
                 bad.append({"what": f"{name}_grad disagrees with a high-order numerical derivative of {name} (rel. {err:.2e})",
                             "case": {"fn": name, "x": [float(v) for v in x], "grad": [float(v) for v in gx], "numerical": [float(v) for v in num]}})
                 break
